@@ -448,6 +448,17 @@ func (s Server) Serve(c context.Context, conn network.Conn) (err error) {
 			traceStarted = false
 		}
 
+		if ctx.IsExiled() {
+			// The handler keeps the exiled context: it must neither be reset nor be reused.
+			// Go on with another one for the next request on this connection.
+			ctx = s.getRequestContext()
+			ctx.HTMLRender = s.HTMLRender
+			ctx.SetConn(conn)
+			ctx.Request.SetIsTLS(s.TLS != nil)
+			ctx.SetEnableTrace(s.EnableTrace)
+			continue
+		}
+
 		ctx.ResetWithoutConn()
 	}
 }
